@@ -33,6 +33,8 @@
 #include "of_openfec_api.h"
 #include "of_linear_binary_code.h"
 #include "of_ldpc_staircase.h"
+#include "of_reed-solomon_gf_2_8.h"
+#include "of_reed-solomon_gf_2_m.h"
 #include <unistd.h>
 
 static FILE *out;	/* answers; the library prints its own messages on stdout/stderr */
@@ -130,7 +132,14 @@ static void print_masks(of_session_t *dec, int codec, UINT32 k, UINT32 n, int wi
 		of_linear_binary_code_cb_t *cb = (of_linear_binary_code_cb_t *)dec;
 		for (i = k; i < n; i++) fputc(cb->encoding_symbols_tab[i] ? '1' : '0', out);
 		if (with_digest) fprintf(out, ":%016llx", state_digest(cb));
-	} else fprintf(out, "-");
+	} else {
+		/* RS codecs: the session state the API model carries - counters, completion flag, availability of every ESI */
+		UINT32 na, ns; int fin; void **av;
+		if (codec == 1) { of_rs_cb_t *cb = (of_rs_cb_t *)dec; na = cb->nb_available_symbols; ns = cb->nb_available_source_symbols; fin = cb->decoding_finished; av = cb->available_symbols_tab; }
+		else { of_rs_2_m_cb_t *cb = (of_rs_2_m_cb_t *)dec; na = cb->nb_available_symbols; ns = cb->nb_available_source_symbols; fin = cb->decoding_finished; av = cb->available_symbols_tab; }
+		fprintf(out, "-:a%us%uf%dm", na, ns, fin ? 1 : 0);
+		for (i = 0; i < n; i++) fputc(av[i] ? '1' : '0', out);
+	}
 }
 
 static int get_last_null(of_session_t *s)
